@@ -31,7 +31,10 @@ def run_check(pid, wd):
     summ = [l for l in out.splitlines() if re.match(r"^C\d\d quick", l)]
     return pid, rc, viol, summ[-1] if summ else out[-300:]
 def main():
+    global SCR
     args = sys.argv[1:]
+    for a in args:
+        if a.startswith("--scr="): SCR = a.split("=")[1]
     jobs = 4
     for a in args:
         if a.startswith("--jobs="): jobs = int(a.split("=")[1])
@@ -39,9 +42,14 @@ def main():
         for w in os.listdir(SCR) if os.path.isdir(SCR) else []:
             sh("git -C /repo worktree remove --force %s/%s/repo" % (SCR, w))
         shutil.rmtree(SCR, ignore_errors=True); sh("git -C /repo worktree prune"); return
-    ids = [a for a in args if not a.startswith("--")] or sorted(d for d in os.listdir(ROOT + "/harmless") if os.path.isdir(ROOT + "/harmless/" + d))
+    # --dir=seeded --own: the same machinery for the seeded property-breaking changes (own property's check only)
+    sub = "harmless"
+    own = "--own" in args
+    for a in args:
+        if a.startswith("--dir="): sub = a.split("=")[1]
+    ids = [a for a in args if not a.startswith("--")] or sorted(d for d in os.listdir(ROOT + "/" + sub) if os.path.isdir(ROOT + "/" + sub + "/" + d))
     claimed = [c["property_id"] for c in json.load(open(ROOT + "/MANIFEST.json"))["checks"]]
-    resf = ROOT + "/harmless/RESULTS.json"
+    resf = ROOT + "/" + sub + ("/RESULTS_scratch.json" if sub == "seeded" else "/RESULTS.json")
     results = json.load(open(resf)) if os.path.exists(resf) else {}
     lock = threading.Lock()
     free = list(range(jobs))
@@ -49,12 +57,12 @@ def main():
         with lock: w = free.pop()
         try:
             wd = worker_dir(w)
-            meta = json.load(open("%s/harmless/%s/meta.json" % (ROOT, hid)))
-            rc, out = sh("git apply %s/harmless/%s/patch.diff" % (ROOT, hid), wd + "/repo")
+            meta = json.load(open("%s/%s/%s/meta.json" % (ROOT, sub, hid)))
+            rc, out = sh("git apply %s/%s/%s/patch.diff" % (ROOT, sub, hid), wd + "/repo")
             if rc != 0:
                 print(hid, "patch does not apply:", out); return
             r = {}
-            for pid in claimed:
+            for pid in ([hid.split("-")[0]] if own else claimed):
                 p, rc2, viol, summ = run_check(pid, wd)
                 r[p] = {"rc": rc2, "violation": viol, "summary": summ}
             alarms = sorted(p for p, x in r.items() if x["rc"] != 0)
@@ -62,7 +70,7 @@ def main():
                 for v in r[p]["violation"]:
                     m = re.search(r"replay=(\S+)", v)
                     if m and os.path.exists(m.group(1)):
-                        sh("cp %s %s/harmless/%s/replay-%s.json" % (m.group(1), ROOT, hid, p))
+                        if sub == "harmless": sh("cp %s %s/harmless/%s/replay-%s.json" % (m.group(1), ROOT, hid, p))
             with lock:
                 results[hid] = {"class": meta.get("class"), "summary": meta.get("summary", "")[:300], "alarms": alarms,
                                 "alarm_lines": {p: r[p]["violation"] + [r[p]["summary"]] for p in alarms}}
